@@ -1,7 +1,7 @@
 """C12 — elastic array / elastic queue / sequential pointer map / object pool (harness/h_ds.c)."""
 
 TARGETS = {
-    "h_ds": dict(harness=["h_ds.c"], engine=["vf.c"],
+    "h_ds": dict(repo_opt="-O0", harness=["h_ds.c"], engine=["vf.c"],
                  shims=["shim_elasticarray.c", "shim_elasticqueue.c", "shim_seqptrmap.c"], repo=[],
                  wrap=["malloc", "calloc", "realloc", "free", "atexit"]),
 }
